@@ -204,6 +204,11 @@ SQRT_AXIOMS = []
 
 
 def sqrt(x):
+  c = z3.simplify(_num(_z(x)))
+  if z3.is_rational_value(c) and c.denominator_as_long() == 1:
+    n = c.numerator_as_long()
+    if n >= 0 and math.isqrt(n) ** 2 == n:
+      return S(z3.RealVal(math.isqrt(n)))       # exact root: stays linear
   r = uf('sqrt', x)
   SQRT_AXIOMS.append(z3.Implies(_num(_z(x)) >= 0, z3.And(
       r.t * r.t == _num(_z(x)), r.t >= 0)))
